@@ -32,7 +32,7 @@ PIPE_MODS = (
 )
 
 TRUSTED_PIPE = (
-    "scipy.optimize.least_squares replaced by its contract: calls fun(x0) first, then fun at arbitrary points, returns OptimizeResult(x, fun=fun(x), jac, nfev, njev, optimality, message); propagates exceptions of fun",
+    "scipy.optimize.least_squares replaced by its contract: calls fun(x0) first, then fun at arbitrary points within the bounds, returns OptimizeResult(x, fun=fun(x), jac, nfev, njev, optimality, message) for one of the evaluated points - not necessarily the last one evaluated; propagates exceptions of fun",
     "residual functions replaced at the call site by their C01 contract: clp arbitrary (fresh symbols), residual = data - matrix @ clp (recorded in the solve log)",
     "Megacomplex.calculate_matrix interface: abstract megacomplex returning its labels and a fresh matrix of arbitrary reals (named symbols)",
     "xarray/pandas executed for real on object arrays; coordinates are concrete and enumerated",
@@ -45,7 +45,7 @@ class LsqTrace:
         self.evals = []
 
 
-def make_least_squares(S, trace, symbolic, n_evals=1, jac=False, fail_at=None, fail_exc=None):
+def make_least_squares(S, trace, symbolic, n_evals=1, jac=False, fail_at=None, fail_exc=None, post_evals=0):
     from scipy.optimize import OptimizeResult
 
     def least_squares(fun, x0, jac_=None, bounds=(-np.inf, np.inf), method="trf", max_nfev=None, verbose=0, ftol=1e-8, gtol=1e-8, xtol=1e-8, **kw):
@@ -68,6 +68,17 @@ def make_least_squares(S, trace, symbolic, n_evals=1, jac=False, fail_at=None, f
                 harness.CURRENT["fail_next"] = fail_exc
             f = fun(x)
             trace.evals.append({"x": x, "f": f})
+        # least_squares may evaluate fun at further points after the one it returns (finite-difference Jacobian,
+        # rejected trial steps): result.x / result.fun are those of the returned point, not of the last call
+        for k in range(post_evals):
+            xp = np.empty(len(x0), dtype=object if symbolic else float)
+            for j in range(len(x0)):
+                xp[j] = S.named(f"x!post{k}_{j}")
+                S.require(L.le(bounds[0][j], xp[j]), "trial point within bounds")
+                S.require(L.le(xp[j], bounds[1][j]), "trial point within bounds")
+            if symbolic:
+                xp = xp.view(SArr)
+            trace.evals.append({"x": xp, "f": fun(xp), "post": True})
         n, p = len(f), len(x0)
         J = np.zeros((n, p), dtype=object if (symbolic and jac) else float)
         if jac:
@@ -85,7 +96,7 @@ class Run:
     """Outcome of a pipeline run (observation points)."""
 
 
-def run_optimizer(S, b, symbolic, n_evals=1, jac=False, create_result=False, optimizer_kwargs=None, before_optimize=None):
+def run_optimizer(S, b, symbolic, n_evals=1, jac=False, create_result=False, optimizer_kwargs=None, before_optimize=None, post_evals=0):
     from glotaran.optimization import optimizer as om
 
     r = Run()
@@ -93,7 +104,7 @@ def run_optimizer(S, b, symbolic, n_evals=1, jac=False, create_result=False, opt
     trace = LsqTrace()
     r.trace = trace
     saved = om.least_squares
-    om.least_squares = make_least_squares(b.S, trace, symbolic, n_evals=n_evals, jac=jac)
+    om.least_squares = make_least_squares(b.S, trace, symbolic, n_evals=n_evals, jac=jac, post_evals=post_evals)
     harness.CURRENT["S"] = b.S
     try:
         with harness.residual_stubs(b.S, symbolic) as log:
@@ -104,7 +115,8 @@ def run_optimizer(S, b, symbolic, n_evals=1, jac=False, create_result=False, opt
                 before_optimize(opt)
             r.n_log_init = len(log.entries)
             opt.optimize()
-            r.penalty = trace.evals[-1]["f"] if trace.evals else None
+            returned = [e for e in trace.evals if not e.get("post")]
+            r.penalty = returned[-1]["f"] if returned else None
             r.n_log_eval = len(log.entries)
             r.groups = list(opt._optimization_groups)
             r.group_names = list(b.model.get_dataset_groups().keys())
